@@ -59,27 +59,58 @@ def _strip_doc(tree):
     return tree
 
 
-def fp(rel, repo=None):
-    p = (repo or REPO) / "src" / "qib" / rel
+PY = "%d.%d" % sys.version_info[:2]      # ast.dump differs between interpreter versions: a stored reference is only used by the same version
+
+
+def fp_text(text):
+    import warnings
     try:
-        return hashlib.sha1(ast.dump(_strip_doc(ast.parse(p.read_text())), annotate_fields=False, include_attributes=False).encode()).hexdigest()
-    except Exception as e:          # unreadable / unparsable source counts as changed
+        with warnings.catch_warnings():
+            warnings.simplefilter("ignore")
+            return hashlib.sha1(ast.dump(_strip_doc(ast.parse(text)), annotate_fields=False, include_attributes=False).encode()).hexdigest()
+    except Exception as e:          # unparsable source counts as changed
         return "unreadable:" + type(e).__name__
 
 
+def fp(rel, repo=None):
+    try:
+        return fp_text(((repo or REPO) / "src" / "qib" / rel).read_text())
+    except Exception as e:
+        return "unreadable:" + type(e).__name__
+
+
+def fp_head(rel):
+    """fingerprint of the file as committed in the repository's HEAD (None if git cannot tell)"""
+    import subprocess
+    try:
+        r = subprocess.run(["git", "-C", str(REPO), "show", "HEAD:src/qib/" + rel], capture_output=True, text=True, timeout=60)
+        return fp_text(r.stdout) if r.returncode == 0 else None
+    except Exception:
+        return None
+
+
 def changed_files(prop):
-    """files under `prop` whose fingerprint differs from the reference (empty on the pinned tree)"""
+    """files under `prop` whose working-tree fingerprint differs from the committed HEAD of the repository, or from the stored reference
+    of the pinned tree (used only under the interpreter version that wrote it); empty on the unchanged tree"""
     try:
         ref = json.loads(REF.read_text())
     except Exception:
-        return []
-    return [f for f in DEPS.get(prop, []) if ref.get(f) is not None and fp(f) != ref[f]]
+        ref = {}
+    stored = ref.get("files", {}) if ref.get("python") == PY else {}
+    out = []
+    for f in DEPS.get(prop, []):
+        cur = fp(f)
+        h = fp_head(f)
+        if (h is not None and cur != h) or (stored.get(f) is not None and cur != stored[f]):
+            out.append(f)
+    return out
 
 
 if __name__ == "__main__":
     if "--write" in sys.argv:
         files = sorted({f for fs in DEPS.values() for f in fs})
-        REF.write_text(json.dumps({f: fp(f, Path("/repo")) for f in files}, indent=1, sort_keys=True))
+        REF.write_text(json.dumps({"python": PY, "repo_head": __import__("subprocess").run(["git", "-C", "/repo", "rev-parse", "--short", "HEAD"], capture_output=True, text=True).stdout.strip(),
+                                   "files": {f: fp(f, Path("/repo")) for f in files}}, indent=1, sort_keys=True))
         print("wrote", REF, len(files), "files")
     else:
         for p in sorted(DEPS):
